@@ -27,13 +27,13 @@ Proof.
 Qed.
 
 Definition helpers_known (cc : ccase) : bool :=
-  forallb (fun a => match a with PHelper h => existsb (String.eqb h) all_helpers | _ => true end) (fst cc).
+  forallb (fun a => match a with PHelper h => existsb (String.eqb h) (all_helpers ++ strong_helpers) | _ => true end) (fst cc).
 
-Lemma helpers_in : forall cc a h, In cc all_cases -> In a (fst cc) -> a = PHelper h -> In h all_helpers.
+Lemma helpers_in : forall cc a h, In cc all_cases -> In a (fst cc) -> a = PHelper h -> In h (all_helpers ++ strong_helpers).
 Proof.
   assert (H : forallb helpers_known all_cases = true) by (vm_compute; reflexivity).
   intros cc a h I Ia ->. rewrite forallb_forall in H. specialize (H cc I). unfold helpers_known in H.
-  rewrite forallb_forall in H. specialize (H _ Ia). change (existsb (String.eqb h) all_helpers = true) in H. apply existsb_exists in H.
+  rewrite forallb_forall in H. specialize (H _ Ia). change (existsb (String.eqb h) (all_helpers ++ strong_helpers) = true) in H. apply existsb_exists in H.
   destruct H as (x & Ix & E). apply String.eqb_eq in E. subst. exact Ix.
 Qed.
 
@@ -111,7 +111,8 @@ Definition sim (x c : berr) : Prop :=
   (forall X, In X all_targets_b -> b_is x X = b_is c X) /\
   (forall X, In X all_targets_b -> b_any x X = b_any c X) /\
   (forall s, In s all_strings -> b_corr x s = b_corr c s) /\
-  (forall h, In h all_helpers -> helper_eval h x = true -> helper_eval h c = true).
+  (forall h, In h all_helpers -> helper_eval h x = true -> helper_eval h c = true) /\
+  (forall h, In h strong_helpers -> helper_eval h x = helper_eval h c).
 
 Lemma sim_refl c : sim c c.
 Proof. repeat split; auto. Qed.
@@ -120,7 +121,7 @@ Definition sym_b (c : berr) : bool := forallb (fun X => implb (b_is X c) (b_is c
 
 Lemma tv_not_wrapper X : is_tv X = true -> forall y, is_tv y = false -> b_is X y = false.
 Proof.
-  intros T y Y. destruct X as [k| | |n|i|m|p x|m x|a b]; try discriminate; destruct y; try discriminate; simpl; auto;
+  intros T y Y. destruct X as [k| | |n|i|m|tm p x|m x|a b]; try discriminate; destruct y; try discriminate; simpl; auto;
     try (match goal with |- context [f_kind ?z] => destruct (f_kind z) end; reflexivity).
 Qed.
 
@@ -134,7 +135,7 @@ Lemma frame_not_tv f x : is_tv (apply_frame f x) = false.
 Proof. destruct f; reflexivity. Qed.
 
 Lemma timeout_underlying x : timeout_iface x = true -> timeout_iface (os_underlying x) = true.
-Proof. destruct x; simpl; auto. Qed.
+Proof. destruct x; simpl; auto. intro H. apply andb_true_iff in H. tauto. Qed.
 
 Lemma frame_helper f x h : In h all_helpers -> helper_eval h (apply_frame f x) = true -> helper_eval h x = true.
 Proof.
@@ -144,9 +145,18 @@ Proof.
     unfold os_uis; simpl; destruct x; simpl; auto; try discriminate.
 Qed.
 
+Lemma timeout_any x : timeout_iface x = true -> any_timeout x = true.
+Proof. destruct x; simpl; intro H; try discriminate; try (rewrite H; reflexivity); auto. Qed.
+
+Lemma frame_strong f x h : In h strong_helpers -> helper_eval h (apply_frame f x) = helper_eval h x.
+Proof.
+  intros [<-|[]]. unfold helper_eval. simpl String.eqb. cbv iota. destruct f; simpl; auto.
+  destruct tm; simpl; auto. destruct (timeout_iface x) eqn:T; simpl; auto. rewrite (timeout_any x T). reflexivity.
+Qed.
+
 Lemma frame_sim f x c : sym_b c = true -> frame_ok f = true -> sim x c -> sim (apply_frame f x) c.
 Proof.
-  intros Sy F (S1 & S2 & S3 & S4). unfold sym_b in Sy. rewrite forallb_forall in Sy. repeat split.
+  intros Sy F (S1 & S2 & S3 & S4 & S5). unfold sym_b in Sy. rewrite forallb_forall in Sy. repeat split.
   - intros X I. rewrite frame_is by (apply targets_tv; auto). auto.
   - intros X I. pose proof (targets_tv X I) as T. unfold b_any at 1.
     rewrite (tv_not_wrapper X T _ (frame_not_tv f x)), frame_is by auto. simpl. rewrite (S1 X I).
@@ -154,6 +164,7 @@ Proof.
   - intros s I. rewrite <- (S3 s I). rewrite !b_corr_contains, frame_text, lower_app.
     unfold frame_ok, neutral in F. rewrite forallb_forall in F. apply contains_neutral. auto.
   - intros h I H. apply (S4 h I). eapply frame_helper; eauto.
+  - intros h I. rewrite frame_strong by auto. auto.
 Qed.
 
 Lemma plug_sim w c : sym_b c = true -> forallb frame_ok w = true -> sim (plug w c) c.
@@ -171,11 +182,11 @@ Qed.
 (* a library wrapper around a sentinel: only its text depends on what was wrapped *)
 Lemma b_is_wrap_text X : forall m m' e, b_is X (BWrap m e) = b_is X (BWrap m' e).
 Proof.
-  induction X as [k| | |n|i|t|p Y IHY|t Y IHY|Y1 IHY1 Y2 IHY2]; intros; simpl; auto.
+  induction X as [k| | |n|i|t|tm p Y IHY|t Y IHY|Y1 IHY1 Y2 IHY2]; intros; simpl; auto.
   rewrite (IHY1 m m' e), (IHY2 m m' e). reflexivity.
 Qed.
 
-Lemma helper_wrap_false h m e : helper_eval h (BWrap m e) = false.
+Lemma helper_wrap_false h m k : helper_eval h (BWrap m (BK k)) = false.
 Proof.
   unfold helper_eval. repeat match goal with |- context [String.eqb ?a ?b] => destruct (String.eqb a b) end; reflexivity.
 Qed.
@@ -203,7 +214,7 @@ Qed.
 Lemma sim_wrapP x c p k : okprefix p = true -> sim x c ->
   sim (BWrap (p ++ b_text x) (BK k)) (BWrap (p ++ b_text c) (BK k)).
 Proof.
-  intros N (S1 & S2 & S3 & S4). repeat split.
+  intros N (S1 & S2 & S3 & S4 & S5). repeat split.
   - intros X I. unfold b_any. rewrite (b_is_wrap_text X (p ++ b_text x) (p ++ b_text c)). reflexivity.
   - intros s I. rewrite !b_corr_contains. simpl b_text. rewrite !lower_app.
     unfold okprefix in N. rewrite forallb_forall in N. specialize (N s I). apply orb_true_iff in N. destruct N as [N|N].
@@ -214,7 +225,9 @@ Qed.
 
 (* ================= one switch ================= *)
 
-Definition nonhelper_atom (a : catom) : bool := match a with PHelper _ => false | _ => true end.
+(* the atoms whose value does not depend on the wrapping: everything but the os.IsXxx helpers *)
+Definition nonhelper_atom (a : catom) : bool :=
+  match a with PHelper h => existsb (String.eqb h) strong_helpers | _ => true end.
 Definition fires_nh (e : berr) (cc : ccase) : bool := existsb (eval_atom e) (filter nonhelper_atom (fst cc)).
 
 Definition noctx (c : berr) : bool :=
@@ -256,7 +269,8 @@ Proof. induction l; simpl; intro H; auto. rewrite H, IHl; auto. Qed.
 Lemma eval_nonhelper x c cc a : In cc all_cases -> In a (fst cc) -> nonhelper_atom a = true -> sim x c ->
   eval_atom x a = eval_atom c a.
 Proof.
-  intros Ic Ia NH (S1 & S2 & S3 & S4). destruct a; simpl; auto; try discriminate.
+  intros Ic Ia NH (S1 & S2 & S3 & S4 & S5). destruct a as [|h| | |]; simpl; auto.
+  - apply S5. change (existsb (String.eqb h) strong_helpers = true) in NH. apply existsb_exists in NH. destruct NH as (y & Iy & E). apply String.eqb_eq in E. subst. auto.
   - unfold b_anyl. apply existsb_ext_in. intros X IX. apply S2. eapply targets_in; eauto.
   - apply existsb_ext_in. intros s Is. apply S3. eapply strings_in; eauto.
 Qed.
@@ -264,8 +278,11 @@ Qed.
 Lemma eval_helper x c cc a : In cc all_cases -> In a (fst cc) -> nonhelper_atom a = false -> sim x c ->
   eval_atom x a = true -> eval_atom c a = true.
 Proof.
-  intros Ic Ia NH (S1 & S2 & S3 & S4). destruct a as [|h| | |]; try discriminate.
-  cbn [eval_atom]. apply S4. apply (helpers_in cc (PHelper h) h Ic Ia eq_refl).
+  intros Ic Ia NH (S1 & S2 & S3 & S4 & S5). destruct a as [|h| | |]; try discriminate.
+  cbn [eval_atom]. apply S4. pose proof (helpers_in cc (PHelper h) h Ic Ia eq_refl) as I.
+  apply in_app_or in I. destruct I as [I|I]; auto.
+  exfalso. change (existsb (String.eqb h) strong_helpers = false) in NH. assert (existsb (String.eqb h) strong_helpers = true); [|congruence].
+  apply existsb_exists. exists h. split; auto. apply String.eqb_refl.
 Qed.
 
 Lemma fires_sim x c cc : In cc all_cases -> sim x c -> implb (fires c cc) (fires_nh c cc) = true ->
@@ -343,7 +360,7 @@ Proof.
   intros S Ce. unfold step_cert, pre_step in *.
   destruct (String.eqb n "commonerrors.ConvertContextError").
   - apply andb_true_iff in Ce. destruct Ce as [H1 H2]. apply negb_true_iff in H1. apply negb_true_iff in H2.
-    destruct S as (S1 & S2 & S3 & S4). destruct ctx_in_targets as (I1 & I2 & _).
+    destruct S as (S1 & S2 & S3 & S4 & S5). destruct ctx_in_targets as (I1 & I2 & _).
     simpl. unfold b_convert_ctx. rewrite (S2 _ I1), (S2 _ I2), H1, H2. repeat split; auto.
   - destruct (String.eqb n "platform.ConvertError"); [|discriminate].
     apply stage_sim; auto. apply platform_sub.
@@ -391,11 +408,7 @@ Definition cond_cert (pre : list string) (cs : list ccase) (c : berr) : bool :=
   | CErr rc => conv_cert pre cs rc && opt_nats_eq (res_kinds (run_conv pre cs rc)) (Some (b_kinds rc))
   end.
 
-(* the filesystem converter recognises EAGAIN and ETIMEDOUT through os.IsTimeout only *)
-Definition fs_domain : list berr :=
-  filter (fun c => match c with BErrno n => negb (errno_timeout n) | _ => true end) base_conds.
-
-Lemma fs_domain_cert : forallb (cond_cert fs_pre fs_cases) fs_domain = true.
+Lemma fs_domain_cert : forallb (cond_cert fs_pre fs_cases) base_conds = true.
 Proof. vm_compute. reflexivity. Qed.
 Lemma io_domain_cert : forallb (cond_cert io_pre io_cases) base_conds = true.
 Proof. vm_compute. reflexivity. Qed.
@@ -431,7 +444,7 @@ Proof.
 Qed.
 
 Lemma converters_wrapping_l :
-  (forall c w, In c fs_domain -> forallb frame_ok w = true ->
+  (forall c w, In c base_conds -> forallb frame_ok w = true ->
      res_kinds (conv_fs (plug w c)) = res_kinds (conv_fs c) /\ at_most_one (res_kinds (conv_fs c)) = true /\
      match conv_fs (plug w c) with CNil => True | CErr r => res_kinds (conv_fs r) = Some (b_kinds r) end) /\
   (forall c w, In c base_conds -> forallb frame_ok w = true ->
@@ -449,12 +462,15 @@ Proof.
   - apply cond_cert_sound; auto. apply proc_sub.
 Qed.
 
-(* the exception is real: a %w wrapper hides ETIMEDOUT from the filesystem converter *)
-Lemma fs_errno_timeout_wrapping_refuted_l :
+(* before fixes/C11-timeout-through-wrapping.patch (the table without isTimeoutError) the statement was false:
+   a %w wrapper hid ETIMEDOUT from the filesystem converter *)
+Lemma fs_errno_timeout_before_fix_l :
   exists n w, errno_timeout n = true /\ forallb frame_ok w = true /\
-    res_kinds (conv_fs (BErrno n)) = Some [ErrTimeout] /\ res_kinds (conv_fs (plug w (BErrno n))) = Some [].
+    res_kinds (run_conv fs_pre fs_cases_before_fix (BErrno n)) = Some [ErrTimeout] /\
+    res_kinds (run_conv fs_pre fs_cases_before_fix (plug w (BErrno n))) = Some [] /\
+    res_kinds (conv_fs (plug w (BErrno n))) = Some [ErrTimeout].
 Proof.
-  exists 110, [FWrap (s2b "while testing")]. vm_compute. auto.
+  exists 110, [FWrap (s2b "while testing")]. vm_compute. auto 10.
 Qed.
 
 (* ================= context errors ================= *)
